@@ -34,6 +34,14 @@ CHECKS = {
          "DATA port (burst / NOPE.ind / nothing) is compared with the reference; frontier exhausted.",
          "Clock handler called directly with the burst's frame number; budget use by muted bursts left open (both accepted).",
          "DESIGN.md 2/C18", "world+explore"),
+ "C19": ("model_checking",
+         "complete walk of the 2 715 648-state frame counter; every (state, delta) transition executed on the compiled C code",
+         "All frame numbers of the hyperframe are visited; l1s_time_inc (firmware sync.c, compiled unmodified for the host) is "
+         "applied from every state for every delta of the quantifier's set (thorough: every delta 0..2652 and the large ones), "
+         "gsm_fn2gsmtime/gsm_gsmtime2fn (tree's gsm_utils.c) are checked in every state, and the Python fn2gsm_time is compared "
+         "with the C decomposition for every frame number.",
+         "Host x86-64 build under ASan/UBSan; expected values from independent division arithmetic in the driver.",
+         "DESIGN.md 2/C19", "cbuild"),
 }
 
 PENDING = {}
